@@ -33,8 +33,9 @@ pub fn sched_strategy() -> impl Strategy<Value = SchedSpec> {
 }
 
 pub fn par_case_strategy(g: ParGen) -> impl Strategy<Value = ParCase> {
-    let p = GenParams { n: (2, 6), b: (2, 4), nd: (2, 3), embed: None, allow_irrelevance: true, allow_potential: true };
-    let cg = ConfigGen { max_width: 2, cache: if g.cache_simple_only { Some(vec![CacheKind::Simple]) } else { None }, dom: g.dom, ..Default::default() };
+    // instances on which the search really fans out (measured: share of runs in which >= 2 workers hold nodes)
+    let p = GenParams { n: (3, 7), b: (2, 4), nd: (2, 3), embed: None, allow_irrelevance: true, allow_potential: true };
+    let cg = ConfigGen { max_width: 2, narrow_only: true, cache: if g.cache_simple_only { Some(vec![CacheKind::Simple]) } else { None }, dom: g.dom, ..Default::default() };
     let threads = g.threads.0..=g.threads.1;
     let builder = if g.builder { prop_oneof![1 => Just(None), 2 => (1usize..=8).prop_map(Some)].boxed() } else { Just(None).boxed() };
     let fire = if g.cutoff { prop_oneof![1 => Just(None), 6 => (1usize..=g.max_fire).prop_map(Some)].boxed() } else { Just(None).boxed() };
